@@ -436,6 +436,12 @@ Octagonal_Shape<T>
 template <typename T>
 inline void
 Octagonal_Shape<T>::add_constraints(const Constraint_System& cs) {
+  // Check all the constraints before adding any of them, so that
+  // `*this' is left unchanged if an exception has to be thrown.
+  for (Constraint_System::const_iterator i = cs.begin(),
+         i_end = cs.end(); i != i_end; ++i) {
+    check_constraint("add_constraints(cs)", *i);
+  }
   for (Constraint_System::const_iterator i = cs.begin(),
          i_end = cs.end(); i != i_end; ++i) {
     add_constraint(*i);
@@ -457,6 +463,12 @@ Octagonal_Shape<T>::add_recycled_congruences(Congruence_System& cgs) {
 template <typename T>
 inline void
 Octagonal_Shape<T>::add_congruences(const Congruence_System& cgs) {
+  // Check all the congruences before adding any of them, so that
+  // `*this' is left unchanged if an exception has to be thrown.
+  for (Congruence_System::const_iterator i = cgs.begin(),
+         cgs_end = cgs.end(); i != cgs_end; ++i) {
+    check_congruence("add_congruences(cgs)", *i);
+  }
   for (Congruence_System::const_iterator i = cgs.begin(),
          cgs_end = cgs.end(); i != cgs_end; ++i) {
     add_congruence(*i);
